@@ -63,6 +63,7 @@ type Config struct {
 	UseHandle  bool   `json:"use_handle_services,omitempty"` // HandleServices instead of Server
 	TLS        bool   `json:"tls,omitempty"`
 	Renderer   int    `json:"renderer,omitempty"` // 0 default, 1 custom (418), 2 silent
+	Host6      bool   `json:"host6,omitempty"`    // the channel's base URL names the server by an IPv6 literal without a port
 	MaxSteps   int    `json:"max_steps,omitempty"`
 	MeterAlloc bool   `json:"meter_alloc,omitempty"` // measure the bytes allocated by the run (C07: unverified size prefaces)
 	WireCut    *WireCut `json:"wire_cut,omitempty"` // the connection breaks after exactly this many bytes were delivered in one direction
